@@ -20,6 +20,7 @@
  *              b = short: all but one byte
  *              e = fail with EINTR, nothing transferred
  *              x = fail hard with errno <arg>; sticky for the class
+ *              y = fail hard with errno <arg> on this call only (a one-off EIO)
  */
 #define _GNU_SOURCE
 #include <errno.h>
@@ -171,6 +172,7 @@ static long decide(int c, long n, size_t len) {
         switch (plan[k].act) {
         case 'e': if (plan[k].idx == n) return -EINTR; break;
         case 'x': dead_errno[c] = plan[k].arg > 0 ? (int)plan[k].arg : EIO; return -dead_errno[c];
+        case 'y': if (plan[k].idx == n) return -(plan[k].arg > 0 ? (int)plan[k].arg : EIO); break;
         case 's': if (len > 1) { long a = plan[k].arg < 1 ? 1 : plan[k].arg; if (a > (long)len - 1) a = (long)len - 1; if (a < allowed) allowed = a; } break;
         case 'b': if (len > 1 && (long)len - 1 < allowed) allowed = (long)len - 1; break;
         case 'l': { long a = plan[k].arg < 1 ? 1 : plan[k].arg; if (a < allowed) allowed = a; } break;
